@@ -12,6 +12,7 @@ LU = {
     "HA": [{"cls": "HaltonSampler", "bs": 1}, {"cls": "A", "bs": 2}],
     "AB1": [{"cls": "A", "bs": 1}, {"cls": "B", "bs": 1}],
     "ABC": [{"cls": "A", "bs": 1}, {"cls": "B", "bs": 1}, {"cls": "C", "bs": 2}],
+    "AA2B": [{"cls": "A", "bs": 2}, {"cls": "A", "bs": 1}, {"cls": "B", "bs": 2}],      # a class twice, with different batch sizes
 }
 ALT_C_BC = [[{"cls": "C", "bs": 1}], [{"cls": "B", "bs": 1}, {"cls": "C", "bs": 1}],
             [{"cls": "C", "bs": 1}, {"cls": "A", "bs": 1}]]      # (a new class listed before an old one)
@@ -65,6 +66,8 @@ _add("MC_C09", "mc", "C09 round robin: batch i by sampler i mod n over calls and
 _c09rl = dict(lineup=LU["AB1"], kind="rl", callsizes=[1, 2], maxbatches=4, maxcalls=3, restore=True)
 _add("MC_C09_rl", "mc", "C09 RL: bootstrap Halton (appended), later batches any sampler of the set", _c09rl,
      inv=COMMON_INV + ["RLBootstrap", "BatchSizes"])
+_add("MC_C09_rl3", "mc", "C09 RL: a class twice in the set, Halton appended", {**_c09rl, "lineup": LU["AA2B"], "maxbatches": 3, "maxcalls": 2},
+     inv=COMMON_INV + ["RLBootstrap", "BatchSizes"])
 _add("MC_C09_rl2", "mc", "C09 RL: Halton already in the set", {**_c09rl, "lineup": LU["HA"]}, inv=COMMON_INV + ["RLBootstrap", "BatchSizes"])
 # ---- C11 ----
 _c11 = dict(faultsat=ALL_FAULTS, savings=[True, False], callsizes=[1, 2], maxbatches=3, maxcalls=3)
@@ -102,6 +105,8 @@ _add("Gen_C09", "gen", "round robin over calls and restores, three samplers",
      dict(lineup=LU["ABA"], callsizes=[1, 2, 3], maxbatches=5, maxcalls=3, restore=True))
 _add("Gen_C09_rl", "gen", "RL: every agent choice sequence",
      dict(lineup=LU["AB1"], kind="rl", callsizes=[1, 2, 3], maxbatches=4, maxcalls=2, savings=[False]))
+_add("Gen_C09_rl3", "gen", "RL, no Halton, a class twice in the set",
+     dict(lineup=LU["AA2B"], kind="rl", callsizes=[1, 2, 3], maxbatches=3, maxcalls=2, savings=[False]))
 _add("Gen_C09_rl2", "gen", "RL with Halton in the set",
      dict(lineup=LU["HA"], kind="rl", callsizes=[1, 2], maxbatches=4, maxcalls=3, savings=[False]))
 _add("Gen_C11", "gen", "fault at every invocation, round robin",
